@@ -330,7 +330,7 @@ impl HllSketch {
                         )));
                     }
 
-                    let lg_arr = lg_arr as usize;
+                    let lg_arr = checked_lg_coupon_arr(lg_arr, lg_config_k)?;
                     let coupon_count = state as usize;
                     let list = List::deserialize(cursor, lg_arr, coupon_count, empty, compact)?;
                     Mode::List { list, hll_type }
@@ -517,6 +517,22 @@ impl HllSketch {
         }
         st
     }
+}
+
+/// Validates the lg size of a coupon container (list or set) read from an image.
+///
+/// A container never has more than 2^max(lg_k - 3, 5) slots: a set of that size is promoted to
+/// an array instead of growing. Larger values would overflow the shift or allocate a table out
+/// of all proportion to the image.
+fn checked_lg_coupon_arr(lg_arr: u8, lg_config_k: u8) -> Result<usize, Error> {
+    const LG_INIT_SET_SIZE: u8 = 5;
+    let max_lg_arr = lg_config_k.saturating_sub(3).max(LG_INIT_SET_SIZE);
+    if lg_arr > max_lg_arr {
+        return Err(Error::deserial(format!(
+            "lg_arr must be at most {max_lg_arr} for lg_k {lg_config_k}, got {lg_arr}"
+        )));
+    }
+    Ok(lg_arr as usize)
 }
 
 fn promote_container_to_set(container: &Container, hll_type: HllType) -> Mode {
